@@ -321,6 +321,36 @@ fn foreign_cases() -> Vec<Foreign> {
         vec![FFile::regular("/a/", "f", b"content of f"), ghost.clone(), FFile::regular("/a/", "x", b"the x file.....")],
         vec![FFile::regular("/a/", "f", b"12345"), FFile::symlink("/a/", "l", "f"), FFile::regular("/b/", "z", b"")],
     ];
+    // a source package as rpmbuild writes it: no directories, bare archive names, incl. names that start with dots
+    {
+        let files = vec![FFile::regular("", ".rpmlintrc", b"lint"), FFile::regular("", "..data", b"dd"), FFile::regular("", "a.spec", b"spec file"), FFile::regular("", "rpmlintrc", b"twin without the dot")];
+        for order in permutations(files.len()).into_iter().filter(|o| o.len() >= 3) {
+            for (cname, comp) in [("none", None), ("gzip", Some("gzip"))] {
+                let arch = foreign::newc_archive_bare(&files, &order);
+                let payload = if comp.is_some() { gzip(&arch) } else { arch };
+                let mut parts = foreign::package("foreign-src", &files, payload, comp, false);
+                crate::pkgtool::set(&mut parts.main, 1106, Some(vlib::refhdr::Val::Int32(vec![1])));
+                let bytes = parts.join().0;
+                let expect = order.iter().map(|&i| (files[i].path(), files[i].archive_data())).collect();
+                v.push(Foreign {
+                    desc: json!({"header_files": files.iter().map(|f| json!({"path": f.path()})).collect::<Vec<_>>(), "archive_order": order.iter().map(|&i| files[i].path()).collect::<Vec<_>>(), "compression": cname,
+                                 "layout": "source package: SOURCEPACKAGE tag, no directory names, newc entries named by the bare file name (as rpmbuild writes them)"}),
+                    bytes,
+                    expect,
+                });
+            }
+        }
+    }
+    // %ghost files (not archived) whose path ends with the whole path of a file that is archived
+    let mut deep_ghost = FFile::regular("/chroot/etc/", "motd", b"");
+    deep_ghost.flags = 1 << 6;
+    deep_ghost.content = b"ghost in the chroot".to_vec();
+    let mut deep_ghost2 = FFile::regular("/var/lib/machines/x/usr/bin/", "sh", b"");
+    deep_ghost2.flags = 1 << 6;
+    deep_ghost2.content = b"another ghost".to_vec();
+    let mut sets = sets;
+    sets.push(vec![deep_ghost.clone(), FFile::regular("/etc/", "motd", b"message of the day"), FFile::regular("/etc/", "z", b"zz")]);
+    sets.push(vec![FFile::regular("/etc/", "motd", b"message of the day"), FFile::regular("/usr/bin/", "sh", b"#!shell"), deep_ghost2.clone()]);
     for files in &sets {
         for order in permutations(files.len()) {
             for (cname, comp) in [("none", None), ("gzip", Some("gzip"))] {
@@ -431,7 +461,7 @@ pub fn run(ctx: &Ctx) -> i32 {
     let s2 = SubReport::new(
         "foreign",
         "A",
-        &format!("{} hand-encoded packages: 4 file sets (1–3 header files incl. a %ghost file that is not archived, a symlink, an empty file) × every ordered selection of their entries as archive order × {{uncompressed, gzip}} × {{newc, newc with upper-case hexadecimal header fields, stripped entries with rpm's alignment bytes}}. Oracle: files() yields the archived entries in archive order, each under the metadata of the file of that name (of that index for stripped entries), bytes identical", fc.len()),
+        &format!("{} hand-encoded packages: 6 file sets (1–3 header files incl. a %ghost file that is not archived, a symlink, an empty file; %ghost files whose path ends with the whole path of an archived file, as a chroot tree does) × every ordered selection of their entries as archive order × {{uncompressed, gzip}} × {{newc, newc with upper-case hexadecimal header fields, stripped entries with rpm's alignment bytes}}. Plus a source package as rpmbuild writes it (no directory names, entries named by the bare file name, names that start with one and two dots next to their dot-less twin) in every order of ≥ 3 of its 4 files. Oracle: files() yields the archived entries in archive order, each under the metadata of the file of that name (of that index for stripped entries), bytes identical", fc.len()),
         b,
     );
     // payloads around the sizes at which compressors change their behaviour (window sizes, block sizes): one at a time,
